@@ -53,7 +53,7 @@ const UNARY: &[&str] = &["sma", "ema", "alma", "cumulative", "min", "max", "welf
     "vst", "vsct", "center_of_gravity", "cti", "net", "rsi", "my_rsi", "laguerre_filter", "laguerre_rsi", "super_smoother",
     "roofing_filter", "cyber_cycle", "trend_flex", "re_flex", "eft", "pfe", "tanh", "gte", "lte", "drawdown", "ln_return", "welford_rolling"];
 const BINARY: &[&str] = &["add", "subtract", "multiply", "divide"];
-fn min_n(kind: &str) -> usize { match kind { "cyber_cycle" | "pfe" => 3, "eft" => 2, _ => 1 } }
+fn min_n(kind: &str) -> usize { match kind { "cyber_cycle" | "pfe" => 3, "eft" | "eft_ss" => 2, _ => 1 } }
 fn positive_only(kind: &str) -> bool { matches!(kind, "drawdown" | "ln_return") }
 fn gamma_of(n: usize) -> f64 { [0.0, 0.25, 0.5, 0.75, 0.875, 0.125][n % 6] }
 
@@ -72,6 +72,7 @@ fn make(kind: &str, inner: Dyn, n: usize) -> Dyn {
         "super_smoother" => d(SuperSmoother::new(inner, n)), "roofing_filter" => d(RoofingFilter::new(inner, n, n.max(1))),
         "cyber_cycle" => d(CyberCycle::new(inner, n)), "trend_flex" => d(TrendFlex::new(inner, n)), "re_flex" => d(ReFlex::new(inner, n)),
         "eft" => d(EhlersFisherTransform::new(inner, Sma::new(Echo::new(), 2), n)),
+        "eft_ss" => d(EhlersFisherTransform::new(inner, SuperSmoother::new(Echo::new(), 4), n)),
         "pfe" => d(PolarizedFractalEfficiency::new(inner, Sma::new(Echo::new(), 2), n)),
         "tanh" => d(Tanh::new(inner)), "gte" => d(GTE::new(inner, 0.5)), "lte" => d(LTE::new(inner, 0.5)),
         "drawdown" => d(Drawdown::new(inner)), "ln_return" => d(LnReturn::new(inner)), "welford_rolling" => d(WelfordRolling::new(inner)),
@@ -109,6 +110,7 @@ fn gen_stream(r: &mut Rng, len: usize, positive: bool) -> Vec<f64> {
 }
 fn close(a: f64, b: f64) -> bool { (a - b).abs() <= 1e-7 * (1.0 + a.abs().max(b.abs())) }
 fn oclose(a: Option<f64>, b: Option<f64>) -> bool { match (a, b) { (Some(x), Some(y)) => close(x, y), (None, None) => true, _ => false } }
+fn near_flat(w: &[f64]) -> bool { let m = w.iter().fold(0.0f64, |a, x| a.max(x.abs())); fmax(w) - fmin(w) <= 1e-6 * (1.0 + m) }
 fn flat(w: &[f64]) -> bool { w.windows(2).all(|p| p[0] == p[1]) }
 /// views whose exact answer on a flat window hinges on an accumulated quantity being exactly 0; in f64 the values that left the
 /// window leave rounding residue there (that is property C16, which this framework does not decide), so such steps are skipped
@@ -116,7 +118,7 @@ fn residue_sensitive(kind: &str) -> bool { matches!(kind, "rsi" | "my_rsi" | "vs
 fn no_skip() -> bool { std::env::var("PROBE_NO_SKIP").is_ok() }
 fn degenerate_step(kind: &str, h: &[f64], t: usize, n: usize) -> bool {
     if no_skip() { return false; }
-    residue_sensitive(kind) && flat(win(&h[..=t], n.max(min_n(kind)))) && !flat(&h[..=t])
+    residue_sensitive(kind) && near_flat(win(&h[..=t], n.max(min_n(kind)))) && !flat(&h[..=t])
 }
 fn win(h: &[f64], n: usize) -> &[f64] { &h[h.len().saturating_sub(n)..] }
 fn fmin(w: &[f64]) -> f64 { w.iter().cloned().fold(f64::INFINITY, f64::min) }
@@ -143,13 +145,13 @@ fn ref_window_stat(kind: &str, h: &[f64], n: usize) -> Option<Option<f64>> {
         "sma" => if t < n { None } else { Some(mean(w)) },
         "cumulative" => Some(w.iter().sum()),
         "min" => Some(fmin(w)), "max" => Some(fmax(w)),
-        "welford_online" => if t + 1 < n { None } else if w.len() < 2 { Some(0.0) } else {
+        "welford_online" => if t + 1 < n { None } else if w.len() < 2 || flat(w) { Some(0.0) } else {
             let m = mean(w); Some((w.iter().map(|x| (x - m) * (x - m)).sum::<f64>() / (w.len() as f64 - 1.0)).max(0.0).sqrt()) },
         "hl_normalizer" => { let (lo, hi) = (fmin(w), fmax(w)); if hi == lo { Some(0.0) } else { Some(2.0 * (h[t - 1] - lo) / (hi - lo) - 1.0) } },
         "binary_entropy" => { let p = w.iter().filter(|x| **x >= 0.0).count() as f64 / w.len() as f64;
             let f = |p: f64| if p <= 0.0 || p >= 1.0 { 0.0 } else { p * p.log2() }; Some(-(f(p) + f(1.0 - p))) },
         "vst" | "vsct" => if t + 1 < n { None } else {
-            let m = mean(w); let sd = if w.len() < 2 { 0.0 } else { (w.iter().map(|x| (x - m) * (x - m)).sum::<f64>() / (w.len() as f64 - 1.0)).max(0.0).sqrt() };
+            let m = mean(w); let sd = if w.len() < 2 || flat(w) { 0.0 } else { (w.iter().map(|x| (x - m) * (x - m)).sum::<f64>() / (w.len() as f64 - 1.0)).max(0.0).sqrt() };
             if kind == "vst" { if sd == 0.0 { Some(h[t - 1]) } else { Some(h[t - 1] / sd) } } else if sd == 0.0 { Some(0.0) } else { Some((h[t - 1] - m) / sd) } },
         "center_of_gravity" => { let nn = w.len(); let den: f64 = w.iter().sum(); if den == 0.0 { Some(0.0) } else {
             let num: f64 = (1..=nn).map(|k| k as f64 * w[nn - k]).sum(); Some((nn as f64 + 1.0) / 2.0 - num / den) } },
@@ -344,6 +346,22 @@ fn check_functional(kind: &str, n: usize, h: &[f64]) -> Option<String> {
     }
     None
 }
+fn check_functional_over(kind: &str, inner: &str, n: usize, h: &[f64]) -> Option<String> {
+    if inner == "echo" { return check_functional(kind, n, h); }
+    let mut a = make(inner, echo(), n);
+    let mut ys = vec![]; let mut at = vec![];
+    for (t, &x) in h.iter().enumerate() { a.update(x); if let Some(y) = a.last() { if !y.is_finite() { return None; } ys.push(y); at.push(t); } }
+    if ys.is_empty() { return None; }
+    let exp = reference(kind, &ys, n)?;
+    let mut v = make(kind, make(inner, echo(), n), n);
+    let got = run_outputs(&mut v, h);
+    for (i, &t) in at.iter().enumerate() {
+        if kind == "cti" && i + 1 < n.max(min_n(kind)) { continue; }
+        if degenerate_step(kind, &ys, i, n) { continue; }
+        if !oclose(got[t], exp[i]) { return Some(format!("step {t} (delivered value {i}): got {:?} expected {:?} over the inner view's outputs", got[t], exp[i])); }
+    }
+    None
+}
 fn check_chain(outer: &str, inner: &str, n: usize, h: &[f64]) -> Option<String> {
     let mut chain = make(outer, make(inner, echo(), n), n);
     let mut a = make(inner, echo(), n); let mut b = make(outer, echo(), n);
@@ -377,7 +395,7 @@ fn check_range(kind: &str, n: usize, h: &[f64]) -> Option<String> {
         let e = 1e-9;
         let (lo, hi): (f64, f64) = match kind {
             "rsi" => (0.0, 100.0), "my_rsi" | "hl_normalizer" | "cti" | "net" | "tanh" | "pfe" => (-1.0, 1.0),
-            "laguerre_rsi" | "binary_entropy" => (0.0, 1.0), "eft" => (-(199.0f64).ln(), (199.0f64).ln()),
+            "laguerre_rsi" | "binary_entropy" => (0.0, 1.0), "eft" | "eft_ss" => (-(199.0f64).ln(), (199.0f64).ln()),
             "welford_online" | "welford_rolling" => (0.0, f64::INFINITY),
             "vsct" => { let b = (n as f64 - 1.0) / (n as f64).sqrt(); (-b, b) },
             "sma" | "alma" => (mn.last().unwrap(), mx.last().unwrap()),
@@ -554,7 +572,7 @@ struct Search { rng: Rng, budget: usize, views: Vec<String> }
 impl Search {
     fn want(&self, k: &str) -> bool { self.views.is_empty() || self.views.iter().any(|v| v == k || alias(v) == k) }
 }
-fn alias(module: &str) -> &str { match module { "correlation_trend_indicator" => "cti", "noise_elimination_technology" => "net", "variance_stabilizing_transformation" => "vst",
+fn alias(module: &str) -> &str { match module { "eft_ss" => "ehlers_fisher_transform", "correlation_trend_indicator" => "cti", "noise_elimination_technology" => "net", "variance_stabilizing_transformation" => "vst",
     "ehlers_fisher_transform" => "eft", "polarized_fractal_efficiency" => "pfe", m => m } }
 
 fn eval(c: &Case) -> Option<String> {
@@ -566,9 +584,9 @@ fn eval_inner(c: &Case) -> Option<String> {
     let (k, n, h) = (c.view.as_str(), c.n, &c.stream[..]);
     match c.prop.as_str() {
         "C01" | "C14" => if BINARY.contains(&k) { let (x, y) = c.inner.split_once('+').unwrap(); check_chain2(k, x, y, n, h) } else { check_chain(k, &c.inner, n, h) },
-        "C02" | "C05" | "C06" | "C11" | "C13" => check_functional(k, n, h),
+        "C02" | "C05" | "C06" | "C11" | "C13" => check_functional_over(k, &c.inner, n, h),
         "C03" => check_finite_memory(k, n, h, &c.stream2, &c.stream2[c.stream2.len().saturating_sub(c.b as usize)..]).or(None),
-        "C04" => check_functional(k, n, h).or_else(|| check_average(k, n, h, c.a, c.b)),
+        "C04" => check_functional_over(k, &c.inner, n, h).or_else(|| check_average(k, n, h, c.a, c.b)),
         "C07" => check_range(k, n, h),
         "C08" => check_ready(k, &c.inner, n, h),
         "C09" => check_stability(k, n, h, &c.stream2),
@@ -587,7 +605,7 @@ fn kinds_for(prop: &str) -> Vec<&'static str> {
         "C03" => vec!["sma", "cumulative", "min", "max", "roc", "welford_online", "vst", "vsct", "hl_normalizer", "binary_entropy", "center_of_gravity", "cti", "net", "rsi", "my_rsi", "alma", "pfe"],
         "C04" => vec!["sma", "ema", "alma"],
         "C05" => vec!["rsi", "my_rsi"], "C06" => vec!["cti", "net", "center_of_gravity"],
-        "C07" => vec!["rsi", "my_rsi", "hl_normalizer", "cti", "net", "tanh", "pfe", "laguerre_rsi", "binary_entropy", "eft", "welford_online", "welford_rolling", "vsct", "sma", "alma", "gte", "lte", "drawdown", "center_of_gravity"],
+        "C07" => vec!["rsi", "my_rsi", "hl_normalizer", "cti", "net", "tanh", "pfe", "laguerre_rsi", "binary_entropy", "eft", "eft_ss", "welford_online", "welford_rolling", "vsct", "sma", "alma", "gte", "lte", "drawdown", "center_of_gravity"],
         "C09" => vec!["ema", "laguerre_filter", "super_smoother", "roofing_filter", "cyber_cycle", "trend_flex", "re_flex", "laguerre_rsi", "eft"],
         "C10" => vec!["sma", "ema", "alma", "cumulative", "laguerre_filter", "super_smoother", "roofing_filter", "cyber_cycle"],
         "C11" => vec!["super_smoother", "roofing_filter", "laguerre_filter", "laguerre_rsi", "cyber_cycle", "trend_flex", "re_flex", "eft", "pfe"],
@@ -618,15 +636,18 @@ fn search(prop: &str, s: &mut Search) -> (usize, Option<Case>) {
                 if c.inner == "ln_return" { c.stream = gen_stream(&mut s.rng, len, true); if positive_only(k) { c.inner = "echo".into(); } }
                 if prop == "C01" && s.rng.below(5) == 0 { let op = s.rng.pick(BINARY); c.view = op.into(); c.inner = format!("{}+{}", s.rng.pick(&inners[..8]), s.rng.pick(&inners[..8])); }
             }
+            "C02" | "C04" | "C05" | "C06" | "C11" | "C13" => if s.rng.below(3) == 0 && !positive_only(k) && prop != "C13" { c.inner = s.rng.pick(if residue_sensitive(k) { &["sma", "max", "gte", "cumulative", "min", "lte"][..] } else { &["sma", "tanh", "ema", "max", "gte", "cumulative"][..] }).into(); },
             "C14" => if BINARY.contains(&k) { c.inner = format!("{}+{}", s.rng.pick(&inners[..8]), s.rng.pick(&inners[..8])); },
             "C03" => { let kk = 2 * n + 3; let extra = s.rng.below(4) as usize; let suffix = gen_stream(&mut s.rng, kk + extra, false);
                 let l2 = 1 + s.rng.below(12) as usize; let mut p2 = gen_stream(&mut s.rng, l2, false); if s.rng.below(2) == 0 { p2.push(1024.0); }
                 c.b = suffix.len() as f64; p2.extend(suffix.iter()); c.stream2 = p2; },
-            "C04" | "C12" => { c.a = s.rng.pick(&[0.5, 2.0, 4.0, 0.25]); c.b = s.rng.pick(&[0.0, 1.0, -2.0, 8.0]); },
+            "C12" => { c.a = s.rng.pick(&[0.5, 2.0, 4.0, 0.25]); c.b = s.rng.pick(&[0.0, 1.0, -2.0, 8.0]); },
+            "C04x" => {},
             "C09" => { c.stream2 = gen_stream(&mut s.rng, len + 3, false); },
             "C10" => { c.stream2 = gen_stream(&mut s.rng, len, false); c.a = s.rng.pick(&[0.0, 1.0, -1.0, 2.0, 0.5]); c.b = s.rng.pick(&[0.0, 1.0, -2.0, 0.5]); },
             _ => {}
         }
+        if prop == "C04" { c.a = s.rng.pick(&[0.5, 2.0, 4.0, 0.25]); c.b = s.rng.pick(&[0.0, 1.0, -2.0, 8.0]); }
         if prop == "C03" { let suf: Vec<f64> = c.stream2[c.stream2.len() - c.b as usize..].to_vec(); c.stream.extend(suf.iter()); let pre_len = c.stream.len() - suf.len(); let pre1 = c.stream[..pre_len].to_vec();
             let pre2 = c.stream2[..c.stream2.len() - suf.len()].to_vec();
             checked += 1;
